@@ -290,6 +290,8 @@ class Interp(object):
                 raise Undecided('attribute %s of %r' % (e.attr, base))
             if d in self.ext:
                 return ('builtin', d)
+            if isinstance(base, Kind) and ('Kind.' + e.attr) in self.ext:
+                return ('kindmethod', base, e.attr)       # a method of a kind, modelled by the rule (slice.indices)
             if d in ('np.integer', 'np.ndarray'):
                 return TypeTok(d)
             if d in ('itertools.takewhile', 'itertools.dropwhile', 'itertools.chain', 'itertools.chain.from_iterable', 'itertools.product', 'itertools.count',
@@ -521,6 +523,8 @@ class Interp(object):
             return f.interp.call_function(f.node, args, f.env, kwargs)
         if isinstance(f, tuple) and len(f) == 3 and f[0] == 'method' and isinstance(f[1], AbsObj):
             return f[1].methods[f[2]](f[1], args, kwargs)
+        if isinstance(f, tuple) and len(f) == 3 and f[0] == 'kindmethod':
+            return self.ext['Kind.' + f[2]]([f[1]] + args, kwargs)
         if isinstance(f, TypeTok):
             if f.name in ('list', 'tuple') and len(args) == 1:
                 v = self.iterate(args[0])
